@@ -82,12 +82,14 @@ def replay(data):
 def main(tier):
     ok, bad = glue_ok()
     obs = obligations(tier)
-    extra = None
+    from vlib import core
+    extra = core.run_obligations("harness.fsconf", [dict(name="fs_conformance", func="ob_fs_conformance", args=(), budget_s=120,
+                                 bounds="21 concrete mutate/discovery scenarios: ModelFS vs real MemoryFS vs native temp directory (validation of the model filesystem)")])
     if not ok:
         # the logic obligations still execute the real code on the representative names, so they are run; what is lost is the
         # justification for composing them with the unit obligation into a claim about ALL names -> one inconclusive entry
         print("  glue check failed (dir.py uses an entry name outside extensions.match/join: %s): the unit+logic composition is not justified" % (bad,))
-        extra = [(dict(name="glue[dir.py uses entry names only through extensions.match/join]", func="glue", bounds="AST check"),
+        extra += [(dict(name="glue[dir.py uses entry names only through extensions.match/join]", func="glue", bounds="AST check"),
                   dict(status="inconclusive", reason="entry name used outside extensions.match/join: %s" % (bad,), paths=0, checks=0, branches=0, solver_s=0.0, wall_s=0.0))]
     return xhprop.main(PROP, tier, FILE, obs, FUNCTIONS, ASSUMPTIONS, OUTSIDE, signature, extra_results=extra,
                        bounds="classification: every printable-ASCII suffix <= 4; discovery: directories and packs of <= 3 entries drawn from representatives of every class")
